@@ -59,6 +59,7 @@ type Machine struct {
 	expects  []string
 	inLibSig bool
 	hashInjective bool
+	nowT     *Term
 }
 
 type observed struct {
